@@ -38,6 +38,9 @@ class Contract:
         self.assumes_l = []          # [(name, expr)] explicit, listed assumptions
         self.unroll = {}
         self.replay = None
+        self.variant = None
+        self.key = q
+        self.ldict_params = {}
 
     def params(self, *names):
         """parameter names of a dependency that has no source (assumed contracts on stdlib leaves)"""
@@ -47,6 +50,10 @@ class Contract:
         if (name, ty) not in self.ghost_l:
             self.ghost_l.append((name, ty))
         return self
+
+    def ldict(self, param, keys):
+        """the parameter is a dict with exactly these (concrete) keys and symbolic values"""
+        self.ldict_params[param] = list(keys); return self
 
     def types(self, **kw):
         self.param_types.update(kw); return self
@@ -93,10 +100,15 @@ class Registry:
         self.lemmas = []
         self.checks = []      # extra python-level checks (finite-set obligations etc.)
 
-    def contract(self, q, prop=None):
-        c = self.contracts.get(q)
+    def contract(self, q, prop=None, variant=None):
+        """`variant`: the same function verified under a second configuration (e.g. another concrete
+        key set of a **kwargs dict); registered as q@variant, never used at call sites."""
+        key = q if variant is None else f"{q}@{variant}"
+        c = self.contracts.get(key)
         if c is None:
-            c = self.contracts[q] = Contract(q)
+            c = self.contracts[key] = Contract(q)
+            c.variant = variant
+            c.key = key
         if prop:
             c.prop = c.prop or prop
             c.props.add(prop)
